@@ -165,6 +165,29 @@ func run(e *core.Env) {
 		}
 	}
 
+	// Wave 16: the clock ticks while a router announces itself. A router signs one frame per
+	// peer; on a real machine a millisecond boundary now and then falls between two of them, so
+	// the copies of one announcement round carry different stamps and a relayed copy with a
+	// later stamp can reach a router before the direct copy with the earlier one. The announcing
+	// worker is held for 1..3 simulated milliseconds after some of its sends (bits drawn here).
+	// (After a send, never between signing a frame and handing it over: a frame held back
+	// there is overtaken by the router's own newer frames and refused as delayed - a loss the
+	// statement does not ask an honest mesh to survive, 10.4 no. 33.)
+	if ms.Net.BeforeSend == nil && tp.Chance(1, 3) {
+		mask := tp.Uint64() | tp.Uint64()
+		calls := 0
+		ms.Net.AfterSend = func(l *simnet.Link, mt frame.MessageType, src netip.Addr) {
+			if (mt != frame.RouterHopPing && mt != frame.RouterHopPingDeprecated) || src != l.Local.IP {
+				return
+			}
+			calls++
+			if mask>>(uint(calls)%64)&1 == 1 {
+				time.Sleep(time.Duration(1+calls%3) * time.Millisecond)
+			}
+		}
+		e.Fault("clock_ticks_while_a_router_announces")
+	}
+
 	// Let the shipped announce workers fire (5 s after each start), then drain.
 	rounds := 1
 	if tp.Chance(1, 6) || opts.LongStagger {
@@ -348,6 +371,11 @@ func run(e *core.Env) {
 	// again and the network has drained, the routes must lead to their destinations over the
 	// labels the links have now.
 	if n >= 3 && !opts.LongStagger && tp.Chance(1, 4) {
+		// (The copies of the re-announcement round carry one stamp per origin again: with stamps
+		// that differ between copies, a copy that arrives later over the shorter path is refused
+		// as delayed and a route over the relabelled link keeps its old labels - DESIGN 10.3,
+		// observation (ab): a history of label changes, which C09 does not quantify over.)
+		ms.Net.AfterSend = nil
 		b := tp.Intn(n)
 		for tries := 0; tries < 8 && len(ms.Adj[b]) < 2; tries++ {
 			b = tp.Intn(n)
